@@ -193,7 +193,7 @@ func runCase(n int, line string) (res string) {
 						} else {
 							out = append(out, "accepted")
 						}
-					case <-time.After(500 * time.Millisecond):
+					case <-time.After(3 * time.Second):
 						// it is serving: the second Listen was not refused
 						out = append(out, "accepted")
 						extra = append(extra, d2)
@@ -225,7 +225,7 @@ func runCase(n int, line string) (res string) {
 			select {
 			case <-l.entered:
 				out = append(out, "ok")
-			case <-time.After(500 * time.Millisecond):
+			case <-time.After(3 * time.Second):
 				out = append(out, "no")
 			}
 		case "gate":
@@ -248,7 +248,13 @@ func runCase(n int, line string) (res string) {
 			l.mu.Unlock()
 			out = append(out, "ok")
 		case "release":
+			// the held Accept returns its connection now; wait until the service has accounted for it (the increment can only
+			// happen after the release), so that later observations do not depend on how fast the service goroutine runs
+			before := svc.VerifActive()
 			close(hold)
+			for t := 0; t < 4000 && svc.VerifActive() <= before; t++ {
+				time.Sleep(250 * time.Microsecond)
+			}
 			time.Sleep(2 * time.Millisecond)
 			out = append(out, "ok")
 		case "connect":
@@ -260,7 +266,23 @@ func runCase(n int, line string) (res string) {
 			}
 			c, s := net.Pipe()
 			clients[id] = c
+			l.mu.Lock()
+			holding := l.hold != nil
+			l.mu.Unlock()
 			l.queue <- ev{conn: s, id: id}
+			if holding {
+				// the placement "between Accept's decision and its return" needs Accept to have taken this connection before the
+				// history goes on (a Shutdown issued earlier would compete with it inside Accept's select)
+				for t := 0; t < 8000; t++ {
+					l.mu.Lock()
+					took := l.accepted[id]
+					l.mu.Unlock()
+					if took {
+						break
+					}
+					time.Sleep(250 * time.Microsecond)
+				}
+			}
 			out = append(out, "c"+strconv.Itoa(id))
 		case "call":
 			id, _ := strconv.Atoi(f[1])
@@ -269,7 +291,7 @@ func runCase(n int, line string) (res string) {
 				out = append(out, "err")
 				continue
 			}
-			c.SetDeadline(time.Now().Add(500 * time.Millisecond))
+			c.SetDeadline(time.Now().Add(3 * time.Second))
 			_, err := c.Write([]byte("{\"method\":\"org.varlink.service.GetInfo\"}\x00"))
 			if err == nil {
 				_, err = bufio.NewReader(c).ReadBytes(0)
@@ -289,7 +311,7 @@ func runCase(n int, line string) (res string) {
 				continue
 			}
 			before := svc.VerifActive()
-			c.SetDeadline(time.Now().Add(500 * time.Millisecond))
+			c.SetDeadline(time.Now().Add(3 * time.Second))
 			_, err := c.Write([]byte("{\"method\":5}\x00"))
 			if err == nil {
 				var b [16]byte
@@ -304,7 +326,7 @@ func runCase(n int, line string) (res string) {
 				}
 				out = append(out, "ended")
 			} else {
-				out = append(out, "notended")
+				out = append(out, "notended:"+strings.ReplaceAll(fmt.Sprint(err), " ", "_"))
 			}
 		case "close":
 			id, _ := strconv.Atoi(f[1])
@@ -334,7 +356,7 @@ func runCase(n int, line string) (res string) {
 			case err := <-done:
 				done <- err
 				out = append(out, "returned")
-			case <-time.After(500 * time.Millisecond):
+			case <-time.After(3 * time.Second):
 				out = append(out, "stuck")
 			}
 		case "shutdown":
@@ -364,7 +386,7 @@ func runCase(n int, line string) (res string) {
 				default:
 					out = append(out, "ret:err")
 				}
-			case <-time.After(500 * time.Millisecond):
+			case <-time.After(3 * time.Second):
 				out = append(out, "noreturn")
 			}
 		case "active":
